@@ -13,6 +13,8 @@ GO_PKGS = [("c10drv", True)]
 # C10/BridgeC13.v (accuracy of the model's exp2 / twap_log from C13's theorems) is deliberately not listed: it depends on another
 # property's files and on Coq-Interval; it is compiled by `./check --setup` (full make) like every file of the development
 MODEL_VO = ["theories/C10/Corr.vo"]
+# built by ./check --setup and by the thorough tier (not by the quick tier: its cone contains C13's Coq-Interval files)
+EXTRA_VO = ["theories/C10/BridgeC13.vo"]
 # only the real-valued theorems (C10_geom_value_partial, C10_geom_twap_true_mean_partial, C10_geom_twap_model_partial) use them: the standard library's reals
 ALLOWED_AXIOMS = ["ClassicalDedekindReals.sig_not_dec", "ClassicalDedekindReals.sig_forall_dec",
                   "FunctionalExtensionality.functional_extensionality_dep", "Classical_Prop.classic"]
